@@ -33,7 +33,7 @@ LEVEL_TEXT = (
 )
 LEVEL_NOTE = "Faults are injected only at the four observer phases, not inside a phase."
 
-CFG = gen.Cfg(onesided=4, facilities=True, max_tasks=6, max_time=[40], abs_max=12, chain_components=True, due=True,
+CFG = gen.Cfg(onesided=4, servable=3, facilities=True, max_tasks=6, max_time=[40], abs_max=12, chain_components=True, due=True,
               work_pool=[0.0, 0.5, 1.0, 1.0, 2.0, 3.0], kinds=[0, 0, 0, 0, 1, 2, 3])
 CFG_N = CFG.copy(nested="assembly")
 PH = ["updated", "allocated", "performed", "recorded"]
